@@ -19,7 +19,7 @@ WHAT = "same history => identical handles, results, join orders, event streams a
 def other_bins():
     """(binary, argv-tail) of other single-threaded domains whose harness exists (joins, save/load)."""
     cmds = []
-    for b, tails in (("h_join_h3", [["gen", "{seed}", "60", "small"], ["gen", "{seed}", "30", "mix"]]), ("h_saveload", [["gen", "{seed}", "150", "30"]]), ("h_changeset", [["gen", "{seed}", "200", "30"]])):
+    for b, tails in (("h_join_h3", [["gen", "{seed}", "60", "small"], ["gen", "{seed}", "30", "mix"]]), ("h_saveload", [["gen", "{seed}", "150", "30"], ["gen", "{seed}", "{detcases}", "40", "det"]]), ("h_changeset", [["gen", "{seed}", "200", "30"]])):
         registered = open(os.path.join(vlib.VERIF, "harness", "BINS")).read().split()
         if b in registered:
             for t in tails:
@@ -112,7 +112,7 @@ def check(prop, tier, seed, t0):
     else:
         jobs = [(b, t, l, seed) for b, t, l in plan(tier, seed)]
         for b, t in other_bins():
-            jobs.append((b, [x.replace("{seed}", str(seed)) for x in t], False, seed))
+            jobs.append((b, [x.replace("{seed}", str(seed)).replace("{detcases}", "3000" if tier == "quick" else "15000") for x in t], False, seed))
         with ThreadPoolExecutor(max_workers=5) as ex:
             results = list(ex.map(triple, jobs))
         n = 0
